@@ -5,10 +5,12 @@ package snow
 
 import (
 	"context"
+	"errors"
 	"fmt"
 	"slices"
 	"time"
 
+	"github.com/ava-labs/avalanchego/database"
 	"github.com/ava-labs/avalanchego/ids"
 	"github.com/ava-labs/avalanchego/snow/engine/snowman/block"
 	"github.com/ava-labs/avalanchego/utils/set"
@@ -104,6 +106,16 @@ func (v *VM[I, O, A]) verifyProcessingBlocks(ctx context.Context) error {
 	invalidBlkIDs := set.NewSet[ids.ID](0)
 	for _, blk := range processingBlocks {
 		parent, err := v.GetBlock(ctx, blk.Parent())
+		if errors.Is(err, database.ErrNotFound) {
+			// The parent is neither processing nor accepted: consensus rejected it and will reject
+			// this block next (rejection is transitive, one block at a time, and the hand-over may
+			// run in between). Treat the block like any other child of an unverified parent.
+			v.log.Warn("Parent block already rejected, skipping verification of processing block",
+				zap.Stringer("block", blk),
+			)
+			invalidBlkIDs.Add(blk.ID())
+			continue
+		}
 		if err != nil {
 			return fmt.Errorf("failed to fetch parent block %s while verifying processing block %s after state sync: %w", blk.Parent(), blk, err)
 		}
